@@ -231,3 +231,20 @@ text("c02-fetcher-dedup-set", "C02", RAW, "            return listing\n\n       
 text("c02-bulkwalk-sorted-roots-dropped", "C02", RAW, "        result = self.multiwalk(\n            oids,\n            fetcher=self._bulkwalk_fetcher(bulk_size),\n        )", "        result = self.multiwalk(\n            oids[:1],\n            fetcher=self._bulkwalk_fetcher(bulk_size),\n        )")
 text("c02-bulkwalk-skips", "C02", RAW, "        async for oid, value in result:\n            yield VarBind(oid, value)", "        async for oid, value in result:\n            if value.value is None:\n                continue\n            yield VarBind(oid, value)")
 text("c02-s-bound-inline", "C02", RAW, "        n = min(non_repeaters, len(oids))\n        m = max_list_size\n        r = max(len(oids) - n, 0)  # pylint: disable=invalid-name\n        expected_max_varbinds = n + (m * r)", "        expected_max_varbinds = len(scalar_oids) + max_list_size * len(repeating_oids)", expect="silent", note="equivalent because scalars are a prefix of the request")
+
+# ---------------------------------------------------------------- C04
+patch("rev-D8b-getnext-index", "C04", "881c6ae-fix__getnext_at_the_end_of_the_MIB_view_raises_NoSuchOID_ins.diff")
+text("c04-multiget-count-lt", "C04", RAW, "        if len(output) != len(oids):\n            raise SnmpError(\n                \"Unexpected response. Expected %d varbind, \"", "        if len(output) < len(oids):\n            raise SnmpError(\n                \"Unexpected response. Expected %d varbind, \"")
+text("c04-multigetnext-no-count", "C04", RAW, "        if len(response_object.value.varbinds) != len(oids):\n            raise SnmpError(", "        if False:\n            raise SnmpError(")
+text("c04-multiset-count-gt", "C04", RAW, "        if len(output) != len(mappings):", "        if len(output) > len(mappings):")
+text("c04-multiget-getnext-class", "C04", RAW, "        pdu = GetRequest(PDUContent(request_id, parsed_oids))", "        pdu = GetNextRequest(PDUContent(request_id, parsed_oids))")
+text("c04-multiget-sorted-request", "C04", RAW, "        parsed_oids = [VarBind(oid, Null()) for oid in oids]\n", "        parsed_oids = [VarBind(oid, Null()) for oid in sorted(oids)]\n")
+text("c04-multiget-dedup-request", "C04", RAW, "        parsed_oids = [VarBind(oid, Null()) for oid in oids]\n", "        parsed_oids = [VarBind(oid, Null()) for oid in oids if oid]\n")
+text("c04-multiget-sorted-result", "C04", RAW, "        output = [value for _, value in response.value.varbinds]\n", "        output = [value for _, value in sorted(response.value.varbinds)]\n")
+text("c04-multiget-returns-oids", "C04", RAW, "        output = [value for _, value in response.value.varbinds]\n", "        output = [oid for oid, _ in response.value.varbinds]\n")
+text("c04-get-only-nosuchobject", "C04", RAW, "        result = await self.multiget([oid])\n        if isinstance(result[0], (NoSuchObject, NoSuchInstance)):", "        result = await self.multiget([oid])\n        if isinstance(result[0], NoSuchObject):")
+text("c04-get-returns-marker", "C04", RAW, "        result = await self.multiget([oid])\n        if isinstance(result[0], (NoSuchObject, NoSuchInstance)):\n            raise NoSuchOID(oid)\n        return result[0]", "        result = await self.multiget([oid])\n        return result[0]")
+text("c04-set-untyped-allowed", "C04", RAW, "        if any(not isinstance(v, Type) for v in mappings.values()):\n            raise TypeError(", "        if False:\n            raise TypeError(")
+text("c04-set-null-values", "C04", RAW, "        binds = [VarBind(oid, value) for oid, value in mappings.items()]", "        binds = [VarBind(oid, Null()) for oid, value in mappings.items()]")
+text("c04-getnext-wrong-oid", "C04", RAW, "        result = await self.multigetnext([oid])", "        result = await self.multigetnext([oid, oid])")
+text("c04-s-getnext-guard-stmt", "C04", RAW, "        if not result or isinstance(\n            result[0].value, (NoSuchObject, NoSuchInstance)\n        ):\n            raise NoSuchOID(oid)\n        return result[0]", "        if not result:\n            raise NoSuchOID(oid)\n        if isinstance(result[0].value, (NoSuchObject, NoSuchInstance)):\n            raise NoSuchOID(oid)\n        return result[0]", expect="silent")
